@@ -179,7 +179,7 @@ theorem arbStep_inv (s : ArbS) (op : AOp) (h : ArbInv s) :
   | add =>
     simp only [arbStep, Bool.true_and]
     split
-    · exact ⟨⟨h1, h2⟩, fun _ => rfl⟩
+    · exact ⟨⟨fun v hv => (by cases hv), fun _ v hv => (by cases hv)⟩, fun _ => rfl⟩
     · rename_i ht
       refine ⟨⟨?_, ?_⟩, fun _ => rfl⟩
       · intro v hv
